@@ -78,6 +78,15 @@ def gen_cases(tier, seed):
             tt = rng.choice(TYPES) if tier == "quick" else None
             for t in ([tt, rng.choice(TYPES)] if tt else TYPES):
                 cases.append({"kind": "arith", "ta": ta, "a": a, "tb": tb, "b": b, "op": op, "tt": t, "form": rng.choice(["plain", "paren"])})
+    # small operands whose quotients are exact but not whole (3 / 4, 9 / 4, -7 / 8): the computed value has another
+    # run-time type than its static type, so the store has to convert it
+    for ta in TYPES:
+        for tb in TYPES:
+            for a in (3, 9, -7, 5, 100, 1):
+                for b in (4, 8, -4, 16):
+                    for op in OPS:
+                        for t in TYPES:
+                            cases.append({"kind": "arith", "ta": ta, "a": a, "tb": tb, "b": b, "op": op, "tt": t, "form": rng.choice(["plain", "paren"])})
     # random values inside the ranges
     nr = 4000 if tier == "quick" else 300000
     for _ in range(nr):
